@@ -18,12 +18,19 @@ def _alarm(signum, frame):
 
 @contextlib.contextmanager
 def time_limit(seconds):
+    """limit on the CPU time of this process (ITIMER_PROF): a loaded machine must not turn a
+    short call into a spurious Timeout, a looping impl still burns CPU; a generous wall-clock
+    limit (ITIMER_REAL) stays as a backstop against blocking calls"""
     old = signal.signal(signal.SIGALRM, _alarm)
-    signal.setitimer(signal.ITIMER_REAL, seconds)
+    oldp = signal.signal(signal.SIGPROF, _alarm)
+    signal.setitimer(signal.ITIMER_REAL, seconds * 10 + 30)
+    signal.setitimer(signal.ITIMER_PROF, seconds)
     try:
         yield
     finally:
+        signal.setitimer(signal.ITIMER_PROF, 0)
         signal.setitimer(signal.ITIMER_REAL, 0)
+        signal.signal(signal.SIGPROF, oldp)
         signal.signal(signal.SIGALRM, old)
 
 
